@@ -14,11 +14,12 @@ SPEC = "spec"
 SHARD = 150
 RULE = ("L2 histories of GER insertions/removals over 8..24 blocks (8..48 thorough) with event density 15..100%, 1..4 segments per node "
         "life (start / restart on the same database / reorg notification with a regenerated fork), 1..7 polls per segment with "
-        "cadence one-block-per-poll, faster-than-blocks, or 0..7 blocks per poll (and occasional stale tips); sixteen seed-independent "
+        "cadence one-block-per-poll, faster-than-blocks, or 0..7 blocks per poll (and occasional stale tips); eighteen seed-independent "
         "boundary cases first; 10% of the cases carry several events per block (outside the property's quantifier: correspondence "
         "only); 4% of the cases let the tip jump by 1001..5000 blocks between two polls (running downloader, first poll after a "
         "restart, restart again afterwards) with events right before/at/after every multiple-of-1000 offset from the block the "
-        "downloader resumes at; in 25% of the cases the L1 info tree syncer lags (the first 1..3 lookups of a root answer not-found). A case is non-trivial when, in some segment, a poll returns a tip higher than every tip polled before in that "
+        "downloader resumes at, two fixed histories with jumps of 5001 and 7000 blocks; every fixed history that removes a root and every eighth random case runs "
+        "again under STORAGE FAULTS (the first attempt at each event-carrying block meets an aborting insert / delete, the driver's retry a healthy store); in 25% of the cases the L1 info tree syncer lags (the first 1..3 lookups of a root answer not-found). A case is non-trivial when, in some segment, a poll returns a tip higher than every tip polled before in that "
         "segment (block 0 before the first poll) and a block carrying a GER event lies strictly between the two; distinct = "
         "distinct input")
 ASSUMPTIONS = [
